@@ -4,7 +4,7 @@
    F50).  [exact_equals simple tol io g h] is ExactEquals(g, h, ToleranceXY(tol), IgnoreOrder?)
    on IEEE-754 bit patterns; [simple] is LineString.IsSimple (an oracle: it belongs to C03). *)
 From Coq Require Import NArith List Bool Permutation.
-From SF Require Import Base.GeomAST Model.WKB Model.ExactEq Proofs.ExactEq_proofs.
+From SF Require Import Base.GeomAST Model.WKB Model.ExactEq Proofs.ExactEq_proofs Proofs.ExactEq_complete.
 Import ListNotations.
 
 (* ---- 1. no options: structural identity ------------------------------------------------ *)
@@ -77,20 +77,13 @@ Theorem ee_plain_implies_ignore_order : forall (F : Type) feq xy simple (g h : g
 Proof. exact ee_plain_implies_io_lemma. Qed.
 Print Assumptions ee_plain_implies_ignore_order.
 
-(* Completeness for the generating moves, partial.
-   FULL STATEMENT (not proved):
-     forall g h, OrderEquiv feq simple g h -> geom_nf ok g = true ->
-                 geom_eq feq (xy_exact feq) simple true g h = true
-   PROVED: every generator of OrderEquiv is accepted - structural equality (previous theorem),
+(* Every generator of OrderEquiv is accepted, with NO assumption on the IsSimple oracle:
    reversal of any LineString, rotation by any k and/or reversal of a ring, every permutation of
    the members of a MultiPoint / MultiLineString / MultiPolygon / GeometryCollection and of the
-   holes of a Polygon - and acceptance is preserved when members are replaced by accepted
-   members at any level; acceptance is symmetric (ee_ignore_order_sym below, so the ring move is
-   accepted in both argument orders).  GAP: closure of the accepted pairs under transitivity
-   (OE_trans): it needs the composition laws of rotations and reversals on index maps modulo n-1
-   and that IsSimple is invariant under these moves, which is a property of C03's IsSimple and
-   not of this file (finding F51 shows it fails in floating point for tiny ordinates). *)
-Theorem ee_ignore_order_complete_partial : forall (F : Type) (feq : F -> F -> bool) (simple : lineT F -> bool)
+   holes of a Polygon, and acceptance is preserved when members are replaced by accepted members
+   at any level.  (The closure under symmetry and transitivity is ee_ignore_order_complete below,
+   which needs the oracle to be invariant under the moves.) *)
+Theorem ee_ignore_order_accepts_generators : forall (F : Type) (feq : F -> F -> bool) (simple : lineT F -> bool)
     (ok : F -> bool),
   (forall a, ok a = true -> feq a a = true) ->
   let ee_io := geom_eq feq (xy_exact feq) simple true in
@@ -113,8 +106,8 @@ Theorem ee_ignore_order_complete_partial : forall (F : Type) (feq : F -> F -> bo
    (forall ct ps qs, Forall2 (fun p q => ee_io (GPoly p) (GPoly q) = true) ps qs ->
                      ee_io (GMPoly ct ps) (GMPoly ct qs) = true) /\
    (forall ct gs hs, Forall2 (fun g h => ee_io g h = true) gs hs -> ee_io (GColl ct gs) (GColl ct hs) = true)).
-Proof. exact ee_io_complete_partial_lemma. Qed.
-Print Assumptions ee_ignore_order_complete_partial.
+Proof. exact ee_io_accepts_generators_lemma. Qed.
+Print Assumptions ee_ignore_order_accepts_generators.
 
 (* ExactEquals(IgnoreOrder) is symmetric, for every IsSimple oracle, whenever == on ordinates is
    symmetric and transitive (this is what the repair F50 establishes: before it, a ring whose
@@ -131,6 +124,47 @@ Theorem ee_ignore_order_sym_bits : forall (simple : lineT N -> bool) (g h : geom
   exact_equals simple 0 true g h = exact_equals simple 0 true h g.
 Proof. exact ee_io_sym_bits. Qed.
 Print Assumptions ee_ignore_order_sym_bits.
+
+(* Completeness.  Hypotheses on the oracle, explicit: IsSimple does not distinguish lines whose
+   ordinates are pairwise ==, nor a closed line from its reversal.  Exact simplicity satisfies
+   both; the floating-point IsSimple of the implementation violates them on the inputs of finding
+   F51 (ordinates below about 1e-162 or above about 1e150), which is exactly where the
+   correspondence run sees IgnoreOrder refuse a listed move. *)
+Theorem ee_ignore_order_trans : forall (F : Type) (feq : F -> F -> bool) (simple : lineT F -> bool),
+  (forall a b, feq a b = true -> feq b a = true) ->
+  (forall a b c, feq a b = true -> feq b c = true -> feq a c = true) ->
+  (forall ct vs ws, Forall2 (veq feq ct) vs ws -> simple (MkLine ct vs) = simple (MkLine ct ws)) ->
+  (forall ct vs, ends_eq feq (xy_exact feq) (MkLine ct vs) = true ->
+                 simple (MkLine ct (rev vs)) = simple (MkLine ct vs)) ->
+  forall g h k : geomT F,
+  geom_eq feq (xy_exact feq) simple true g h = true -> geom_eq feq (xy_exact feq) simple true h k = true ->
+  geom_eq feq (xy_exact feq) simple true g k = true.
+Proof. exact geom_io_trans. Qed.
+Print Assumptions ee_ignore_order_trans.
+
+(* "identifies geometries that differ only by ...": whatever is related by the listed moves is
+   accepted, provided one side is self-equal (= has no NaN in a used ordinate) *)
+Theorem ee_ignore_order_complete : forall (F : Type) (feq : F -> F -> bool) (simple : lineT F -> bool),
+  (forall a b, feq a b = true -> feq b a = true) ->
+  (forall a b c, feq a b = true -> feq b c = true -> feq a c = true) ->
+  (forall ct vs ws, Forall2 (veq feq ct) vs ws -> simple (MkLine ct vs) = simple (MkLine ct ws)) ->
+  (forall ct vs, ends_eq feq (xy_exact feq) (MkLine ct vs) = true ->
+                 simple (MkLine ct (rev vs)) = simple (MkLine ct vs)) ->
+  forall g h : geomT F,
+  OrderEquiv feq simple g h -> geom_eq feq (xy_exact feq) simple true g g = true ->
+  geom_eq feq (xy_exact feq) simple true g h = true.
+Proof. exact ee_io_complete_lemma. Qed.
+Print Assumptions ee_ignore_order_complete.
+
+(* ... "and nothing else": the full equivalence, on bit patterns with IEEE equality *)
+Theorem ee_ignore_order_spec : forall (simple : lineT N -> bool) (g h : geom),
+  (forall ct vs ws, Forall2 (veq feq_bits ct) vs ws -> simple (MkLine ct vs) = simple (MkLine ct ws)) ->
+  (forall ct vs, ends_eq feq_bits (xy_exact feq_bits) (MkLine ct vs) = true ->
+                 simple (MkLine ct (rev vs)) = simple (MkLine ct vs)) ->
+  cts_agree g = true -> cts_agree h = true -> nan_free g = true ->
+  (exact_equals simple 0 true g h = true <-> OrderEquiv feq_bits simple g h).
+Proof. exact ee_io_iff_bits. Qed.
+Print Assumptions ee_ignore_order_spec.
 
 (* ---- 4. ToleranceXY ---------------------------------------------------------------------- *)
 (* [tol] is the bit pattern of the argument of ToleranceXY; squared distances are compared
@@ -215,3 +249,12 @@ Proof. eexists; eexists; split; [vm_compute; reflexivity | split; [vm_compute; r
 Example ex_backtrack :
   valid_permutation (fun a b : nat => Nat.leb (a - b) 1 && Nat.leb (b - a) 1) [1; 3]%nat [2; 0]%nat = true.
 Proof. vm_compute. reflexivity. Qed.
+
+(* the oracle hypotheses of ee_ignore_order_spec are satisfiable (any constant oracle), and the
+   theorem then yields a derivation of OrderEquiv for the example pair above *)
+Example ex_order_equiv : OrderEquiv feq_bits (fun _ => true) ex_g ex_h.
+Proof.
+  apply (ee_ignore_order_spec (fun _ => true) ex_g ex_h);
+    [exact (proj1 (const_oracle_invariant feq_bits true)) | exact (proj2 (const_oracle_invariant feq_bits true))
+    | vm_compute; reflexivity | vm_compute; reflexivity | vm_compute; reflexivity | vm_compute; reflexivity].
+Qed.
